@@ -3,6 +3,7 @@ package main
 import (
 	"flag"
 	"fmt"
+	"golang.org/x/tools/go/ssa"
 	"os"
 	"runtime/debug"
 	"sort"
@@ -34,6 +35,7 @@ func main() {
 	nomut := flag.Bool("nomutants", false, "skip seeded mutants in thorough tier")
 	list := flag.Bool("list", false, "list properties")
 	dump := flag.Bool("dump", false, "print every obligation")
+	pathsOf := flag.String("paths", "", "debug: enumerate decision-table paths of pkg:recv:func")
 	flag.Parse()
 	debug.SetGCPercent(400)
 	if *list {
@@ -43,6 +45,10 @@ func main() {
 		}
 		sort.Strings(ids)
 		fmt.Println(strings.Join(ids, " "))
+		return
+	}
+	if *pathsOf != "" {
+		debugPaths(*repo, *pathsOf)
 		return
 	}
 	p := registry[*prop]
@@ -126,4 +132,39 @@ func runProperty(p *Property, info *runInfo, repo string, thorough, nomut, dump 
 		}
 	}
 	return r.Finish(info, p.Explanation, p.Assumptions)
+}
+
+func debugPaths(repo, spec string) {
+	c, err := Load(repo)
+	if err != nil {
+		fmt.Println(err)
+		return
+	}
+	parts := strings.Split(spec, ":")
+	fn := c.LookupFunc(parts[0], parts[1], parts[2])
+	if fn == nil {
+		fmt.Println("not found")
+		return
+	}
+	if len(parts) > 3 {
+		for _, a := range AnonFuncsDeep(fn) {
+			if a.Name() == parts[3] {
+				fn = a
+			}
+		}
+	}
+	paths := EnumeratePaths(c, fn, &dtConfig{IsAtomCall: func(call *ssa.Call) bool {
+		if o := CalleeObj(call); o != nil && o.Pkg() != nil && (o.Pkg().Path() == "fmt" || o.Pkg().Path() == "bytes" || o.Pkg().Path() == "strings") {
+			return true
+		}
+		return false
+	}})
+	for i, p := range paths {
+		fmt.Printf("--- path %d undecided=%q\n  assume: %v\n", i, p.Undecided, p.Assume)
+		for _, e := range p.Effects {
+			fmt.Printf("  %s\n", e.String())
+		}
+		fmt.Printf("  locals: %v\n", p.Locals)
+		fmt.Printf("  returns: %v\n", p.Returns)
+	}
 }
